@@ -660,23 +660,26 @@ def parseLoop (rec : ExprRec) (prec : Prec) : Nat → List Token → PExpr → O
       | _ :: _ => .ok left input
     else .ok left input
 
+/-- the first operand of `parse` (expression.rs:82-95): the immediate value if there was one, else a
+variable, an identifier-led expression or a parenthesised expression -/
+def parseOperand (rec : ExprRec) (imm : Option CBits) : Parser PExpr := fun input =>
+  match imm with
+  | some n => .ok (.number n) input
+  | none =>
+    match input with
+    | [] => .err
+    | .variable name :: remainder => .ok (.var (str name)) remainder
+    | .identifier _ :: _ => parseExpressionIdentifier rec input
+    | .lParenthesis :: remainder => parseGroupedExpression rec remainder
+    | _ :: _ => .err
+
 /-- the body of `parse` (expression.rs:78-117) with the recursive calls abstracted -/
 def parseBody (rec : ExprRec) (input : List Token) (prec : Prec) : Outcome PExpr :=
   match opt parsePrefix input with
   | .ok pfx input =>
     match opt parseImmediateValue input with
     | .ok imm input =>
-      let start : Outcome PExpr :=
-        match imm with
-        | some n => .ok (.number n) input
-        | none =>
-          match input with
-          | [] => .err
-          | .variable name :: remainder => .ok (.var (str name)) remainder
-          | .identifier _ :: _ => parseExpressionIdentifier rec input
-          | .lParenthesis :: remainder => parseGroupedExpression rec remainder
-          | _ :: _ => .err
-      match start with
+      match parseOperand rec imm input with
       | .ok left input =>
         let left := match pfx with
           | some op => .pre op left
